@@ -33,6 +33,13 @@ Definition mt_maintain (m : maint) (now : Z) : maint * tick_out :=
    {| o_populate := empty || refresh; o_round := round;
       o_pings := if round then snd (ping_round now (mt_rt m)) ++ snd (ping_round now (mt_srt m)) else [] |}).
 
+(* the refresh's lookup (populate: find_node of the own id) is created *before* the round of the same iteration drops the
+   stale entries: it is seeded with what both tables hold at the start of the iteration - also with entries that have
+   not been heard from for longer than 15 minutes because the node itself was not scheduled *)
+Definition refresh_is_due (m : maint) (now : Z) : bool := (REFRESH_INTERVAL <? now - mt_refresh m)%Z.
+Definition refresh_seeds (m : maint) (now : Z) : list (N * N) :=
+  if refresh_is_due m now then map (fun n => (nip n, nport n)) (rt_values (mt_rt m) ++ rt_values (mt_srt m)) else [].
+
 (* an expected response from (id, ip, port) is processed: its sender is (re-)added, seen now — to the
    signed-peers table as well if its version announces support *)
 Definition mt_response (m : maint) (now : Z) (who : id * N * N) (rs06 : bool) : maint :=
